@@ -350,6 +350,7 @@ type outcome struct {
 	v            *evid.Violation
 	inconclusive bool
 	importErr    error
+	ep           endpoint
 }
 
 type runner struct {
@@ -397,7 +398,7 @@ func (rt *runner) importVerify(archive []byte, sel selection, stage string, vf f
 		return outcome{inconclusive: true}
 	}
 	if err != nil {
-		return outcome{importErr: err, v: evid.V("import-error", "%s: ImageImport(%s) failed: %s", stage, s, short(err))}
+		return outcome{importErr: err, ep: ep, v: evid.V("import-error", "%s: ImageImport(%s) failed: %s", stage, s, short(err))}
 	}
 	if v := vf(ep, stage+"/after-import"); v != nil {
 		return outcome{v: v}
@@ -599,7 +600,18 @@ func checkRoundTrip(c Case, ev *evid.Collector) *evid.Violation {
 	}
 	// ---- oracle (2): base import
 	rt := &runner{e: e, c: c, ev: ev, validate: true, classes: classes}
-	x := expect{RootDigest: root.Digest, Required: cl.Content, Manifests: cl.Manifests}
+	// a digest that is (also) named as a foreign layer is not judged at the target: BlobHead of such a
+	// descriptor is answered by the external URL and the import rightly does not push foreign layers
+	required := map[string][]byte{}
+	for d, b := range cl.Content {
+		required[d] = b
+	}
+	for _, n := range closureNodes(g) {
+		for _, d := range n.Foreign {
+			delete(required, d)
+		}
+	}
+	x := expect{RootDigest: root.Digest, Required: required, Manifests: cl.Manifests}
 	verifyMain := func(tag string) func(ep endpoint, stage string) *evid.Violation {
 		return func(ep endpoint, stage string) *evid.Violation {
 			xx := x
@@ -612,8 +624,113 @@ func checkRoundTrip(c Case, ev *evid.Collector) *evid.Violation {
 		baseSel = selection{dig: root.Digest}
 	}
 	tolerate := func(o outcome) bool { return !supported && o.importErr != nil }
+	// diagnose attributes an import error to a graph / target level cause by
+	// re-running the same import on a fresh target with the cause neutralised:
+	// "seed" = the blob-typed index entries pre-exist at the target, "novalidate"
+	// = the target registry does not reject manifests with absent references.
+	// The neutraliser of the reported cause stays applied for the rest of the case.
+	preKept := map[string]bool{}
+	for _, d := range c.Pre.Keep {
+		preKept[d] = true
+	}
+	diagnose := func(run func() outcome, o outcome) (*evid.Violation, bool) {
+		if o.importErr == nil {
+			return o.v, false
+		}
+		seeds := map[string]bool{}
+		for d := range blobEntry {
+			if !preKept[d] && !rt.seed[d] && len(g.Blobs[d].Data) > 0 {
+				seeds[d] = true
+			}
+		}
+		canSeed := len(seeds) > 0
+		canNoVal := rt.validate && c.TgtFeat.Validate && c.TgtKind == "reg"
+		saveSeed, saveVal := rt.seed, rt.validate
+		with := func(seed, noval bool) bool {
+			rt.seed, rt.validate = saveSeed, saveVal
+			if seed {
+				rt.seed = map[string]bool{}
+				for d := range saveSeed {
+					rt.seed[d] = true
+				}
+				for d := range seeds {
+					rt.seed[d] = true
+				}
+			}
+			if noval {
+				rt.validate = false
+			}
+			o2 := run()
+			return o2.v == nil && !o2.inconclusive
+		}
+		culprit, both := "", false
+		switch {
+		case canSeed && with(true, false):
+			culprit = "seed"
+		case canNoVal && with(false, true):
+			culprit = "novalidate"
+		case canSeed && canNoVal && with(true, true):
+			culprit, both = "seed", true
+		}
+		rt.seed, rt.validate = saveSeed, saveVal
+		extra := ""
+		if both {
+			extra = " and the target registry does not validate manifest references (a second cause, judged separately)"
+		}
+		switch culprit {
+		case "seed":
+			rt.seed = map[string]bool{}
+			for d := range saveSeed {
+				rt.seed[d] = true
+			}
+			for d := range seeds {
+				rt.seed[d] = true
+			}
+			return evid.V("import-blob-typed-index-entry-fails", "ImageImport fails on an archive whose index has blob-typed entries %v (non-empty, not yet at the target): %s; "+
+				"the same import succeeds once those blobs pre-exist at the target%s", sortedKeys(seeds), short(o.importErr), extra), true
+		case "novalidate":
+			rt.validate = false
+			// which PUT was rejected, and what was absent at that instant (from the model's log)
+			rejected, missing := "", []string{}
+			if o.ep.kind == "reg" {
+				for _, en := range e.m.Entries() {
+					if en.Host == o.ep.host.Name && en.Repo == o.ep.repo && en.Class == "manifest-put" && en.Status == 400 && len(en.Missing) > 0 {
+						rejected, missing = en.Ref, en.Missing
+					}
+				}
+			}
+			// the known shape: a nested index is PUT before a child manifest that another index lists too
+			parents := map[string]map[string]bool{}
+			for _, n := range closureNodes(g) {
+				for _, cid := range n.Children {
+					cd := g.Nodes[cid].Digest
+					if parents[cd] == nil {
+						parents[cd] = map[string]bool{}
+					}
+					parents[cd][n.Digest] = true
+				}
+			}
+			shared := rejected != root.Digest && strings.Contains(rejected, ":")
+			if rn := g.ByDigest(rejected); rn == nil || rn.Kind != "index" {
+				shared = false
+			}
+			for _, md := range missing {
+				if len(parents[md]) < 2 {
+					shared = false
+				}
+			}
+			if shared {
+				return evid.V("import-manifest-pushed-before-its-references", "ImageImport into a registry that rejects manifests whose references are absent fails: %s; "+
+					"the same import into a non-validating registry succeeds: the nested index %s is pushed before %v, which another index lists as well (pushes run in reverse discovery order, not dependency order)", short(o.importErr), rejected, missing), true
+			}
+			return evid.V("import-push-order-rejected-by-validating-registry", "ImageImport into a registry that rejects manifests whose references are absent fails: %s; "+
+				"the same import into a non-validating registry succeeds: %s was pushed while %v was still absent", short(o.importErr), rejected, missing), true
+		}
+		return o.v, false
+	}
 	for round := 0; ; round++ {
-		o := rt.importVerify(raw, baseSel, "base", verifyMain(baseSel.tag))
+		run := func() outcome { return rt.importVerify(raw, baseSel, "base", verifyMain(baseSel.tag)) }
+		o := run()
 		if o.inconclusive {
 			finish("watchdog", false)
 			return nil
@@ -625,49 +742,8 @@ func checkRoundTrip(c Case, ev *evid.Collector) *evid.Violation {
 			finish("import-error-unsupported", false)
 			return nil
 		}
-		if round >= 3 {
-			finish("base-import-failed", true)
-			return o.v
-		}
-		// attribution by re-running on a fresh target with one cause removed
-		v := o.v
-		fixed := false
-		if o.importErr != nil {
-			seeds := map[string]bool{}
-			preKept := map[string]bool{}
-			for _, d := range c.Pre.Keep {
-				preKept[d] = true
-			}
-			for d := range blobEntry {
-				if !preKept[d] && !rt.seed[d] && len(g.Blobs[d].Data) > 0 {
-					seeds[d] = true
-				}
-			}
-			if len(seeds) > 0 {
-				save := rt.seed
-				rt.seed = seeds
-				o2 := rt.importVerify(raw, baseSel, "base+seeded-blob-entries", verifyMain(baseSel.tag))
-				if o2.v == nil && !o2.inconclusive {
-					v = evid.V("import-blob-typed-index-entry-fails", "ImageImport fails on an archive whose index has blob-typed entries %v (non-empty, not yet at the target): %s; "+
-						"the same import succeeds once those blobs pre-exist at the target", sortedKeys(seeds), short(o.importErr))
-					fixed = true
-				} else {
-					rt.seed = save
-				}
-			}
-			if !fixed && rt.validate && c.TgtFeat.Validate && c.TgtKind == "reg" {
-				rt.validate = false
-				o2 := rt.importVerify(raw, baseSel, "base+non-validating", verifyMain(baseSel.tag))
-				if o2.v == nil && !o2.inconclusive {
-					v = evid.V("import-manifest-pushed-before-its-references", "ImageImport into a registry that rejects manifests whose references are absent fails: %s; "+
-						"the same import into a non-validating registry succeeds (push order is wrong)", short(o.importErr))
-					fixed = true
-				} else {
-					rt.validate = true
-				}
-			}
-		}
-		if fixed && ev.IsKnown(v.Sig) {
+		v, attributed := diagnose(run, o)
+		if attributed && ev.IsKnown(v.Sig) && round < 4 {
 			ev.Report(v, c)
 			classes["known:"+v.Sig] = true
 			continue // keep searching behind the known finding with its trigger neutralised
@@ -731,23 +807,49 @@ func checkRoundTrip(c Case, ev *evid.Collector) *evid.Violation {
 				classes["outcome:variant-import-error-unsupported"] = true
 				break
 			}
+			if dv, attributed := diagnose(func() outcome { return try(cur, label) }, o); attributed {
+				if ev.IsKnown(dv.Sig) && round < 8 {
+					ev.Report(dv, c)
+					classes["known:"+dv.Sig] = true
+					continue
+				}
+				finish("variant-failed", true)
+				dv.Msg = label + ": " + dv.Msg
+				return dv
+			}
 			fs := cur.features(names)
 			culprit := ""
-			var cv *evid.Violation
+			var cv, gv *evid.Violation
 			if len(fs) == 1 {
 				culprit, cv = fs[0], o.v
 			} else {
 				for _, f := range fs {
-					o2 := try(cur.restrict(f, true, names), label+" only "+f)
+					only := cur.restrict(f, true, names)
+					o2 := try(only, label+" only "+f)
 					if o2.inconclusive {
 						finish("watchdog", false)
 						return nil
 					}
 					if o2.v != nil {
+						// a graph / target level cause that this transformation merely exposes?
+						if dv, attributed := diagnose(func() outcome { return try(only, label+" only "+f) }, o2); attributed {
+							gv = dv
+							gv.Msg = label + " only " + f + ": " + gv.Msg
+							break
+						}
 						culprit, cv = f, o2.v
 						break
 					}
 				}
+			}
+			if gv != nil {
+				if ev.IsKnown(gv.Sig) && round < 8 {
+					ev.Report(gv, c)
+					classes["known:"+gv.Sig] = true
+					continue
+				}
+				finish("variant-failed", true)
+				return gv
 			}
 			if culprit == "" {
 				finish("variant-failed", true)
@@ -893,9 +995,11 @@ func checkDocker(c Case, ev *evid.Collector) *evid.Violation {
 			return nil
 		}
 	}
-	qualify := func(o outcome) *evid.Violation {
+	// qualify names a failure; variant=true keeps plain import errors under the same
+	// signature as the round-trip variants (one defect = one signature)
+	qualify := func(o outcome, variant bool) *evid.Violation {
 		v := o.v
-		if o.importErr != nil {
+		if o.importErr != nil && !variant {
 			v = evid.V("docker-import-error", "%s (style %s)", v.Msg, dc.Style)
 			if dupPath {
 				v.Sig = "docker-duplicate-layer-path-import-error"
@@ -914,7 +1018,7 @@ func checkDocker(c Case, ev *evid.Collector) *evid.Violation {
 	}
 	if o.v != nil {
 		finish("docker-base-failed", true)
-		return qualify(o)
+		return qualify(o, false)
 	}
 	if c.DockerVar != nil {
 		cur := *c.DockerVar
@@ -942,7 +1046,7 @@ func checkDocker(c Case, ev *evid.Collector) *evid.Violation {
 			culprit := ""
 			var cv *evid.Violation
 			if len(fs) == 1 {
-				culprit, cv = fs[0], qualify(o)
+				culprit, cv = fs[0], qualify(o, true)
 			} else {
 				for _, f := range fs {
 					o2 := try(cur.restrict(f, true, names), "docker variant only "+f)
@@ -951,14 +1055,14 @@ func checkDocker(c Case, ev *evid.Collector) *evid.Violation {
 						return nil
 					}
 					if o2.v != nil {
-						culprit, cv = f, qualify(o2)
+						culprit, cv = f, qualify(o2, true)
 						break
 					}
 				}
 			}
 			if culprit == "" {
 				finish("variant-failed", true)
-				return evid.V("variant-combination-"+qualify(o).Sig, "docker archive variant with transformations %v (none of which fails alone): %s", fs, o.v.Msg)
+				return evid.V("variant-combination-"+qualify(o, true).Sig, "docker archive variant with transformations %v (none of which fails alone): %s", fs, o.v.Msg)
 			}
 			nv := evid.V("variant-"+culprit+"-"+cv.Sig, "the Docker-format archive (%s) imports correctly, its variant with transformation %q does not: %s", dc.Style, culprit, cv.Msg)
 			if ev.IsKnown(nv.Sig) && round < 8 {
